@@ -48,22 +48,28 @@ SMenu   == << PAdd(HH.x, PScale(<<1, 2>>, HH.z)), PScale(<<1, 2>>, HH.yz), PZero
 QMenu   == << <<PAdd(PConst(One), HH.y), HH.xz>> >>
 OroMenu == << PZero, PAdd(HH.xz, PScale(<<1, 4>>, HH.y)) >>
 
-CONSTANTS Choices         \* set of <<psi, chi, tp, s, oro>> menu indices
+CONSTANTS Choices,        \* set of <<psi, chi, tp, s, oro>> menu indices
+          Deep            \* TRUE: three levels
 
 OneChoice == {<<1, 1, 1, 1, 2>>}
 QuickChoices == {<<1, 1, 1, 1, 2>>, <<2, 2, 2, 2, 1>>, <<3, 3, 1, 2, 2>>}
 MediumChoices == QuickChoices \cup {<<1, 2, 3, 2, 2>>, <<2, 1, 2, 3, 1>>, <<3, 1, 1, 1, 1>>, <<1, 3, 2, 1, 1>>, <<2, 3, 3, 1, 2>>, <<3, 2, 2, 3, 2>>}
 AllChoices == (1..3) \X (1..3) \X (1..3) \X (1..3) \X (1..2)
-InitPoly == /\ \E b \in {<<0, 4, 8>>, <<0, 2, 8>>} : \E ch \in Choices : \E tr \in {<<3, 3>>, <<2, 4>>} :
+(* two levels, or (Deep) three: an interior level feels both of its interfaces *)
+Columns == IF Deep THEN {[b |-> <<0, 2, 5, 8>>, tr |-> <<2, 3, 5>>], [b |-> <<0, 3, 6, 8>>, tr |-> <<3, 3, 3>>]}
+           ELSE {[b |-> bb, tr |-> tt] : bb \in {<<0, 4, 8>>, <<0, 2, 8>>}, tt \in {<<3, 3>>, <<2, 4>>}}
+InitPoly == /\ \E col \in Columns : \E ch \in Choices : LET b == col.b  tr == col.tr IN
                  /\ cfg = [b |-> b, tref |-> tr, kappa |-> <<2, 7>>, gas |-> <<3, 2>>, gasv |-> <<5, 2>>, omega |-> <<1, 2>>, ch |-> ch]
             /\ pc = "H" /\ H = <<>> /\ Hs = <<>> /\ Hasfound = <<>> /\ G = <<>> /\ diag = <<>> /\ tend = <<>>
 
-Psi(k) == PsiMenu[cfg.ch[1]][k]
-Chi(k) == ChiMenu[cfg.ch[2]][k]
-Tp(k) == TpMenu[cfg.ch[3]][k]
+(* the menus give two levels; a third level is half the sum of the first two minus the second *)
+Lev(menu, k) == IF k <= 2 THEN menu[k] ELSE PSub(PScale(<<1, 2>>, menu[1]), PScale(<<1, 2>>, menu[2]))
+Psi(k) == Lev(PsiMenu[cfg.ch[1]], k)
+Chi(k) == Lev(ChiMenu[cfg.ch[2]], k)
+Tp(k) == Lev(TpMenu[cfg.ch[3]], k)
 S == SMenu[cfg.ch[4]]
 OroP == OroMenu[cfg.ch[5]]
-Q(k) == QMenu[1][k]
+Q(k) == Lev(QMenu[1], k)
 Rgas == cfg.gas
 
 (* ---- atom-linear polynomials ---- *)
@@ -205,7 +211,7 @@ HOf(tr) == [r \in 1..K |-> [s \in 1..K |->
        k0(q) == IF q >= 1 /\ q < K THEN RDiv(RSub(tr[q + 1], tr[q]), RAdd(DSig(q + 1), DSig(q))) ELSE Zero
        kk(q) == IF q >= 1 /\ q < K THEN RMul(k0(q), RSub(P(q - s), Cum(q))) ELSE Zero
    IN  LScale(DSig(s), LSub(h0, LConst(RAdd(kk(r), kk(r - 1)))))]]
-Shift == [k \in 1..K |-> R(2 * k - 1)]                         \* 1, 3 : not constant in the vertical
+Shift == [k \in 1..K |-> R(k * k)]                             \* 1, 4, 9 : not affine in the vertical
 HOfAgrees == Finished => HOf(TrefR) = H
 SplitFree == Finished =>
    LET tr2 == [k \in 1..K |-> RAdd(TrefR[k], Shift[k])]
